@@ -1254,3 +1254,44 @@ def _lexical_site(model, extra):
         if not same:
             out.append({"site": site, "printed": text, "read_back_as": str(getattr(arg, "ast_type", arg))})
     return {"confirmed": bool(out), "sites": out[:3]}
+
+
+@mirror("predicate_list_bounded")
+def _predicate_list_bounded(model, extra):
+    from argparse import ArgumentTypeError
+
+    from ngo.utils.ast import Predicate
+    from ngo.utils.parser import get_parser
+
+    cases = {
+        "auto": "auto",
+        "": [],
+        "a/1": [Predicate("a", 1)],
+        "a/1,b/2": [Predicate("a", 1), Predicate("b", 2)],
+        "zero/0, another/14": [Predicate("zero", 0), Predicate("another", 14)],
+        " a /3": [Predicate("a", 3)],
+        "a/1,b/2,c/0": [Predicate("a", 1), Predicate("b", 2), Predicate("c", 0)],
+        "a": ArgumentTypeError,
+        "a/1/2": ArgumentTypeError,
+        "a/x": ArgumentTypeError,
+        "a/1,b": ArgumentTypeError,
+        "a/1,,b/2": ArgumentTypeError,
+    }
+    problems = []
+    for opt in ("--input-predicates", "--output-predicates"):
+        for text, want in cases.items():
+            try:
+                got = getattr(get_parser().parse_args([opt, text]), opt[2:].replace("-", "_"))
+            except ArgumentTypeError:
+                got = ArgumentTypeError
+            except SystemExit:
+                got = SystemExit
+            if got != want:
+                problems.append({"option": opt, "value": text, "got": str(got), "want": str(want)})
+        got = getattr(get_parser().parse_args([opt]), opt[2:].replace("-", "_"))
+        if got != []:
+            problems.append({"option": opt + " (no value)", "got": str(got), "want": "[]"})
+        got = getattr(get_parser().parse_args([]), opt[2:].replace("-", "_"))
+        if got != "auto":
+            problems.append({"option": opt + " (absent)", "got": str(got), "want": "auto"})
+    return {"confirmed": bool(problems), "bounded": True, "bound": f"{2 * (len(cases) + 2)} option values", "problems": problems[:3]}
